@@ -593,8 +593,11 @@ def plan_faults(ctx):
     return ctx.finish("fault enumeration validated by TLC: for every covered state, every call of the alphabet and every callback "
                       "index j the call makes, the j-th user callback (Ord::cmp, comparator closure, key accessor, expiration "
                       "accessor) panics; the snapshot after catch_unwind must be a valid tree whose contents are those before or "
-                      "after the call, and the collection is observed and mutated again afterwards; model: PanicAt successors of "
-                      "every call of the key tree", ASSUME_COMMON)
+                      "after the call, and the collection is observed and mutated again afterwards (the same follow-up is made after a "
+                      "control run without a panic, and the random drivers are also run once without injection, so that defects "
+                      "which exist without any panic are not attributed to it); model: the panic successors of every callback "
+                      "point of the key tree (MCKey), of the segment iterator (MCSeg) and of the key list's retain sweep (MCKeyList)",
+                      ASSUME_COMMON)
 
 
 
